@@ -375,3 +375,57 @@ func pathTo(parent map[*ssa.Function]*ssa.Function, f *ssa.Function) string {
 }
 
 var _ = callgraph.CalleesOf
+
+
+// PathCount enumerates the acyclic entry→non-rejecting-return paths of fn and, for each, counts the call sites matching
+// pred and records the branch conditions taken. fn must be loop-free on those paths (cycles are cut).
+type pathInfo struct {
+	Count int
+	Conds map[string]bool
+	Ret   *ssa.Return
+}
+
+func (c *Check) PathCounts(fn *ssa.Function, pred func(*CallSite) bool) []pathInfo {
+	fa := c.P.FA(fn)
+	sites := map[*ssa.BasicBlock]int{}
+	for _, cs := range c.P.CallsIn(fn) {
+		if pred(cs) {
+			sites[cs.Ins.Block()]++
+		}
+	}
+	var out []pathInfo
+	var walk func(b *ssa.BasicBlock, onPath map[*ssa.BasicBlock]bool, count int, conds []string)
+	walk = func(b *ssa.BasicBlock, onPath map[*ssa.BasicBlock]bool, count int, conds []string) {
+		if onPath[b] || len(out) > 20000 {
+			return
+		}
+		onPath[b] = true
+		defer delete(onPath, b)
+		count += sites[b]
+		last := b.Instrs[len(b.Instrs)-1]
+		switch t := last.(type) {
+		case *ssa.Return:
+			if fa.exit[b.Index] != "reject" && fa.exit[b.Index] != "recover" {
+				m := map[string]bool{}
+				for _, s := range conds {
+					m[s] = true
+				}
+				out = append(out, pathInfo{Count: count, Conds: m, Ret: t})
+			}
+		case *ssa.If:
+			ce := fa.X.E(t.Cond)
+			walk(b.Succs[0], onPath, count, append(conds, ce.String()))
+			walk(b.Succs[1], onPath, count, append(conds[:len(conds):len(conds)], negate(ce).String()))
+		default:
+			for _, s := range b.Succs {
+				walk(s, onPath, count, conds)
+			}
+		}
+	}
+	if len(fn.Blocks) > 0 {
+		walk(fn.Blocks[0], map[*ssa.BasicBlock]bool{}, 0, nil)
+	}
+	return out
+}
+
+func sprint(i int) string { return fmt.Sprint(i) }
